@@ -880,6 +880,40 @@ func (w *world) Exec(r *hx.Run, op []string) string {
 		}
 		w.checkSetsInForce(r, "crash-restart", got)
 		return "crashed ok " + got.String()
+	case "root":
+		// root <start> <hash,hash,..>: GetBlockRootWithPreBlockHashes as a proposer calls it
+		if len(op) != 3 || w.main.store == nil {
+			return "bad-op"
+		}
+		start, err := strconv.ParseUint(op[1], 10, 32)
+		if err != nil {
+			return "bad-op"
+		}
+		var pre []common.Uint256
+		if op[2] != "-" {
+			for _, hs := range strings.Split(op[2], ",") {
+				h, err := parseHash(hs)
+				if err != nil {
+					return "bad-op"
+				}
+				pre = append(pre, h)
+			}
+		}
+		st := w.main.store
+		cur := st.GetCurrentBlockHeight()
+		got := st.GetBlockRootWithPreBlockHashes(uint32(start), pre)
+		// reference: the accumulator over the previous-block hashes of blocks 0..cur plus the hashes not yet committed
+		if uint32(start) <= cur+1 && cur+1 <= uint32(start)+uint32(len(pre)) {
+			var hashes []common.Uint256
+			for i := uint32(0); i < cur; i++ {
+				hashes = append(hashes, st.GetBlockHash(i))
+			}
+			hashes = append(hashes, pre[cur+1-uint32(start):]...)
+			if want := refBlockRoot(hashes); want != got {
+				r.Viol("C13:block-root-query-wrong", fmt.Sprintf("GetBlockRootWithPreBlockHashes(%d, %d hashes) at block height %d returns %s, the accumulator root over the committed block hashes and the given predecessors is %s", start, len(pre), cur, hexOf(got), hexOf(want)))
+			}
+		}
+		return hexOf(got)
 	case "prefill":
 		// prefill <n>: the in-memory header index is grown to n entries (header height n-1)
 		if len(op) != 2 || w.main.store == nil {
